@@ -27,9 +27,9 @@ def ulps(a: float, b: float) -> int:
 def call_scheduler(cfg):
     from speckit import schedulers
     fn = getattr(schedulers, SCHEDS[cfg["sched"]])
-    kw = dict(N=cfg["N"], fs=cfg["fs"], olap=cfg["on"] / cfg["od"], Jdes=cfg["Jdes"], Kdes=cfg["Kdes"])
-    if cfg["sched"] != "lpsd":
-        kw.update(bmin=cfg["bn"] / cfg["bd"], Lmin=cfg["Lmin"])
+    # lpsd_plan is documented to ignore bmin / Lmin (it fixes them to 1): they are passed all the same, as the analyzer does
+    kw = dict(N=cfg["N"], fs=cfg["fs"], olap=cfg["on"] / cfg["od"], Jdes=cfg["Jdes"], Kdes=cfg["Kdes"],
+              bmin=cfg["bn"] / cfg["bd"], Lmin=cfg["Lmin"])
     return fn(**kw)
 
 
@@ -58,7 +58,7 @@ def record_plan(cfg):
         p = call_scheduler(cfg)
     except BaseException as exc:  # sys.exit(-1) in the scheduler is a SystemExit
         meta["scheduler_exception"] = f"{type(exc).__name__}: {exc}"
-        return {"meta": meta, "c": c, "ev": [{"t": "built", "ok": 0}]}
+        return {"meta": meta, "c": c, "ev": [{"t": "built", "ok": 0, "same": 0}]}
     try:
         f, r, b, L, K, navg, D, O = (p[k] for k in ("f", "r", "b", "L", "K", "navg", "D", "O"))
         nf = len(f)
@@ -96,10 +96,11 @@ def record_plan(cfg):
         meta["bmin_branch_bins"] = int(sum(1 for j in range(nf) if float(b[j]) == bmin_f))
     except Exception as exc:
         meta["recorder_exception"] = f"{type(exc).__name__}: {exc}"
-        ev.append({"t": "built", "ok": 0})
+        ev.append({"t": "built", "ok": 0, "same": 0})
         return {"meta": meta, "c": c, "ev": ev}
     # the analyzer path
     ok = 1
+    same = 1
     try:
         a = speckit.SpectrumAnalyzer(np.zeros(N), fs, olap=cfg["on"] / cfg["od"], bmin=cfg["bn"] / cfg["bd"],
                                      Lmin=cfg["Lmin"], Jdes=cfg["Jdes"], Kdes=cfg["Kdes"],
@@ -108,10 +109,21 @@ def record_plan(cfg):
         if int(pl["nf"]) != len(ev):
             ok = 0
             meta["analyzer_exception"] = f"analyzer plan has {pl['nf']} bins, scheduler {len(ev)}"
+        else:
+            # the analyzer only forwards the configuration: its plan must be the scheduler's plan
+            for fld in ("f", "r", "L", "K", "navg"):
+                if not np.array_equal(np.asarray(pl[fld]), np.asarray(p[fld]).astype(np.asarray(pl[fld]).dtype)):
+                    same = 0
+                    meta["analyzer_plan_differs_in"] = fld
+                    break
+            else:
+                same = 1 if all(np.array_equal(np.asarray(a_), np.asarray(b_)) for a_, b_ in zip(pl["D"], D)) else 0
+                if not same:
+                    meta["analyzer_plan_differs_in"] = "D"
     except BaseException as exc:
         ok = 0
         meta["analyzer_exception"] = f"{type(exc).__name__}: {exc}"
-    ev.append({"t": "built", "ok": ok})
+    ev.append({"t": "built", "ok": ok, "same": same if ok else 0})
     return {"meta": meta, "c": c, "ev": ev}
 
 
@@ -130,7 +142,7 @@ def record_count(cfg):
 
 # --------------------------------------------------------------------------- configurations
 OLAPS = [(0, 1), (1, 4), (1, 2), (3, 4), (7, 8), (31, 32)]
-BMINS = [(1, 1), (3, 2), (2, 1), (7, 2)]
+BMINS = [(1, 1), (3, 2), (2, 1), (7, 2), (12, 1)]
 JDES = [1, 2, 3, 10, 50, 500]
 KDES = [1, 2, 5, 40, 100]
 
@@ -172,7 +184,7 @@ def grid_configs(tier: str, seed: int, scheds=("lpsd", "ltf", "vectorized", "new
         od = rnd.randint(1, 64)
         on = rnd.randint(0, od - 1)
         bd = rnd.choice([1, 2, 3, 4, 10])
-        bn = rnd.randint(bd, max(bd, min(8 * bd, (N * bd) // 2 - 1)))
+        bn = rnd.randint(bd, max(bd, min((20 if rnd.random() < 0.3 else 8) * bd, (N * bd) // 2 - 1)))
         out.append(mk(N, on, od, bn, bd, rnd.randint(1, N), rnd.choice([1, 2, 3, 5, 7, 20, 100, 300]),
                       rnd.randint(1, 120), rnd.choice(scheds)))
     return [c for c in out if admissible(c)]
